@@ -13,7 +13,7 @@ import (
 )
 
 var c03Forced = []string{"group.1col", "group.2col", "group.3col", "group.nullkey", "group.mixedkey", "having", "having.key", "where", "star", "agg.COUNT*", "agg.COUNT", "agg.SUM", "agg.MIN", "agg.MAX", "agg.AVG",
-	"agg.samefn-diffcol", "agg.samefn-samecol", "agg.nullable", "whole.where", "whole.nowhere", "whole.empty", "whole.union", "whole.limit", "table.empty", "from.alias", "reexec.vars", "agg.groupcol"}
+	"agg.samefn-diffcol", "agg.samefn-samecol", "agg.nullable", "whole.where", "whole.nowhere", "whole.empty", "whole.union", "whole.limit", "table.empty", "from.alias", "reexec.vars", "agg.groupcol", "naming.alias-unqualified", "naming.table-qualified"}
 
 func init() {
 	fw.Register(&fw.Prop{
@@ -123,11 +123,24 @@ func c03Group(c *fw.Case) {
 	var feats []string
 	// an aliased table with every column named by its qualified source name
 	aliasMode := force == "from.alias" || (force == "" && c.Chance(0.2))
+	// how the columns are named: by the alias, without it although the table
+	// has one, or by the table's own name
+	qualName, fromText := "", "t1"
+	switch {
+	case aliasMode:
+		qualName, fromText = "x", "t1 x"
+	case force == "naming.alias-unqualified" || (force == "" && c.Chance(0.08)):
+		aliasMode, fromText = true, "t1 x"
+		feats = append(feats, "naming.alias-unqualified")
+	case force == "naming.table-qualified" || (force == "" && c.Chance(0.08)):
+		aliasMode, qualName = true, "t1"
+		feats = append(feats, "naming.table-qualified")
+	}
 	qualify := func(aggSQL string) string {
-		if !aliasMode || strings.HasSuffix(aggSQL, "(*)") {
+		if qualName == "" || strings.HasSuffix(aggSQL, "(*)") {
 			return aggSQL
 		}
-		return strings.Replace(aggSQL, "(", "(x.", 1)
+		return strings.Replace(aggSQL, "(", "("+qualName+".", 1)
 	}
 	pg := &gen.PredGen{R: c.R, T: t, MaxDepth: 2, Disable: map[string]bool{"in.subquery": true, "like": true, "notlike": true}}
 	var where gen.Pred
@@ -289,10 +302,12 @@ func c03Group(c *fw.Case) {
 	}
 	// SQL
 	ro := gen.RenderOpts{Quote: gen.Quoting(c.Intn(2)), StrStyle: c.Intn(2)}
-	from := "t1"
+	from := fromText
 	if aliasMode {
-		ro.Qualifier, from = "x", "t1 x"
-		feats = append(feats, "from.alias")
+		ro.Qualifier = qualName
+		if qualName == "x" {
+			feats = append(feats, "from.alias")
+		}
 	}
 	parts := make([]string, len(items))
 	for i, it := range items {
